@@ -14,7 +14,11 @@ Streams (all from chk.rng):
            denotation (address-free acyclic constants have their value, the rest is unknown, at most n+1 rounds);
   chain    the same constants as whole programs, the pre-pass result observed through `#bankdef { addr = k0 }`;
   order    metamorphic: address-free leaf constants moved to other positions of the same scope => identical
-           output bits and symbol values."""
+           output bits and symbol values;
+  cond     the same trees and references with random (nested) segments moved into the taken arm of #if/#elif/#else
+           constructs with decoy arms, several per program, conditions literal or over constants that are themselves
+           declared in arms (so that decls::collect runs two to four rounds): oracle = lexical scoping on the selected
+           world (taken arms inlined in place), plus the metamorphic twin program = selected world."""
 import itertools, os
 import vlib
 import c15_gen as G
@@ -25,21 +29,29 @@ RULE = ("G-prog(symbols): declaration trees to dot-level 4 over names {g,h,x,k}+
         "node x dot-level 0..5 x (every name in use, every full dotted name and its suffixes, random paths).  "
         "program: one `#d8 ref` per program at every position/dot-level/path (sampled per tree).  rounds/chain: constants "
         "k0..k(n-1), n <= 7, chain / dag / cycle / label-dependent / dotted flavours, all permutations for n <= 4 and random "
-        "orders above.  order: leaf constants re-inserted at random admissible positions.  "
+        "orders above.  order: leaf constants re-inserted at random admissible positions.  cond: trees with 1..3 references, "
+        "segments wrapped (to depth 3) into #if/#elif/#else with decoy arms, conditions true/false/1==1/q1==1/q2==2/q3==3 where q2, q3 "
+        "are declared inside arms; expected = scoping of the selected world.  "
         "non-trivial = distinct (tree, node, level, path) lookups that resolve to a declaration; distinct one-reference "
-        "programs whose reference resolves; distinct (constant set, order) with >= 1 forward reference")
+        "programs whose reference resolves; distinct (constant set, order) with >= 1 forward reference; distinct conditional "
+        "programs outside the F55 class with a dotted declaration inside a taken arm")
 
 CLASS_TEXT = {
     "symbol_named_like_builtin": "a global symbol named like a built-in (pc, le, sizeof, ..., incbin) can be declared "
                                  "but a bare reference never resolves to it",
 }
+# a class filed under another property whose inputs this check also generates (the defect lies where C15 and C16 meet)
+SHARED_CLASSES = ("nested_symbol_across_if",)
+CLASS_TEXT["nested_symbol_across_if"] = ("a dotted declaration that follows an #if block is attached to the scopes collected "
+                                         "before the block's arm was spliced in (F55, filed under C16)")
 BUDGET = 40
 
 
 class Findings:
     def __init__(self, chk):
         self.chk = chk
-        self.known = {f["class"]: f for f in vlib.known_findings() if f.get("property") == "C15" and f.get("status") == "known"}
+        self.known = {f["class"]: f for f in vlib.known_findings()
+                      if f.get("status") == "known" and (f.get("property") == "C15" or f.get("class") in SHARED_CLASSES)}
         self.by_class = {}
 
     def add(self, cls, what, replay, found=True):
@@ -212,7 +224,7 @@ def names_env(names):
 def run_programs(chk, fnd, bins, model, names, stream, progs, theorems, opt="1"):
     """progs: list of dict(nodes, bank, tag).  Runs asmtext (debug+release), the model, the Python denotation.
     Returns list of canonical impl views."""
-    impl_lines = ["A\t%d\t%s\t1\t%s" % (BUDGET, opt, vlib.hx(G.render(p["nodes"], p.get("bank")))) for p in progs]
+    impl_lines = ["A\t%d\t%s\t1\t%s" % (BUDGET, opt, vlib.hx(p.get("text") or G.render(p["nodes"], p.get("bank")))) for p in progs]
     model_lines = ["P\t%s\t%d\t%s\t%s" % (opt, BUDGET, G.wire_expr(p["bank"]) if p.get("bank") else "-", G.wire_nodes(p["nodes"]))
                    for p in progs]
     res = {pf: vlib.run_lines([bins[pf] + "/asmtext"], impl_lines) for pf in bins}
@@ -221,7 +233,7 @@ def run_programs(chk, fnd, bins, model, names, stream, progs, theorems, opt="1")
     ndis = 0
     views = []
     for idx, p in enumerate(progs):
-        prog = G.render(p["nodes"], p.get("bank"))
+        prog = p.get("text") or G.render(p["nodes"], p.get("bank"))
         impl = res["debug"][idx]
         if "release" in res and res["release"][idx] != impl:
             fnd.add("profile-divergence", "debug and release builds disagree",
@@ -239,6 +251,12 @@ def run_programs(chk, fnd, bins, model, names, stream, progs, theorems, opt="1")
         dist["ok" if iv[0] == "OK" else "err"] += 1
         rep = {"kind": "program", "stream": stream, "program": prog, "tag": p.get("tag"), "budget": BUDGET,
                "impl": show_view(iv), "model": show_view(mv), "spec": show_view(sv)}
+        if p.get("text"):
+            # conditional program: model and specification are evaluated on the selected world (taken arms inlined)
+            rep["selected_world"] = G.render(p["nodes"], p.get("bank"))
+            if iv != sv and p.get("f55"):
+                fnd.add("nested_symbol_across_if", "a dotted declaration after an #if block is attached to the wrong parent", rep)
+                continue
         reserved = touches_reserved(p["nodes"] + ([("D", 8, p["bank"])] if p.get("bank") else []), names)
         if sv[0] == "BUILTIN" or (reserved and iv != sv):
             dist["reserved_name"] += 1
@@ -254,7 +272,9 @@ def run_programs(chk, fnd, bins, model, names, stream, progs, theorems, opt="1")
                     fnd.add("program-correspondence", "model/implementation correspondence broken (reserved name)", rep, found=False)
             continue
         if iv != sv:
-            fnd.add("program-spec", "%s: implementation %s, lexical scoping says %s" % (p.get("tag"), show_view(iv)[:80], show_view(sv)[:80]), rep)
+            fnd.add("cond-spec" if p.get("text") else "program-spec",
+                    "%s: implementation %s, lexical scoping%s says %s" % (
+                        p.get("tag"), show_view(iv)[:80], " on the selected world" if p.get("text") else "", show_view(sv)[:80]), rep)
         elif iv != mv:
             ndis += 1
             rep["theorems"] = theorems
@@ -494,6 +514,70 @@ def stream_order(chk, fnd, bins, model, names, count):
         chk.sample({"stream": "order", "program_a": G.render(pairs[0][0]), "program_b": G.render(pairs[0][1]), "impl": show_view(views[0])})
 
 
+def directed_cond():
+    """conditional programs written out: nested declarations in arms under parents outside, arms that open scopes"""
+    L, C, O = (lambda k, n: ("L", k, n)), (lambda k, n, e: ("C", k, n, e)), ("O",)
+    ref = lambda k, *p: ("D", 8, ("r", k, list(p)))
+    If = lambda c, v, body, els=None: ("I", [(c, v, body)], els)
+    q1 = C(0, "q1", ("l", 1))
+    out = []
+    out.append(([L(0, "outer"), O, If("true", True, [L(1, "inner"), O]), ref(0, "outer", "inner")], "nested label in an arm, parent outside"))
+    out.append(([q1, L(0, "outer"), O, If("q1 == 2", False, [L(1, "x")], [C(1, "inner", ("l", 9))]), ref(1, "inner")],
+                "nested constant in an #else arm, parent outside"))
+    out.append(([If("true", True, [L(0, "first"), O, L(1, "v"), O]), L(0, "second"), O, L(1, "v"), O,
+                 If("true", True, [L(1, "w"), O]), ref(1, "v"), ref(0, "second", "w")],
+                "two #if blocks: the second declares .w under the unconditional label"))
+    out.append(([q1, If("q1 == 1", True, [C(0, "q2", ("l", 2))]), L(0, "g"), O, L(1, "a"), O,
+                 If("q2 == 2", True, [L(2, "b"), O, If("q2 == 2", True, [L(3, "c"), O])]), ref(0, "g", "a", "b", "c"), ref(3, "c")],
+                "three collection rounds, nesting continues inside the arms"))
+    out.append(([L(0, "g"), O, If("false", False, [L(0, "h")], None), L(1, "a"), O, ref(0, "g", "a")], "unselected arm opens no scope"))
+    out.append(([L(0, "g"), O, If("true", True, [L(1, "a"), O, L(1, "a")])], "duplicate inside an arm"))
+    out.append(([L(0, "g"), If("true", True, [L(2, "a")])], "skipped level inside an arm"))
+    out.append(([ref(1, "a"), L(0, "g"), ref(1, "a"), If("true", True, [O, L(1, "a"), ref(1, "a")]), ref(1, "a"), ref(0, "g", "a")],
+                "references before, inside and after the arm"))
+    return out
+
+
+def stream_cond(chk, fnd, bins, model, names, count):
+    """declarations and references inside #if / #elif / #else arms: the program must behave as its selected world"""
+    rng = chk.rng.fork("cond")
+    progs = []
+    dist = {"in_f55_class": 0, "ifs": 0, "multi_stage": 0}
+    cases = [(items, tag) for items, tag in directed_cond()]
+    while len(cases) < count:
+        items = G.gen_cond_program(rng)
+        if G.f55_exact(G.select_world(items)) and rng.chance(0.75):
+            continue
+        cases.append((items, "generated"))
+    for items, tag in cases:
+        world = G.select_world(items)
+        f55 = G.f55_exact(world)
+        text = G.render_cond(items)
+        dist["in_f55_class"] += f55
+        dist["ifs"] += G.count_ifs(items)
+        dist["multi_stage"] += ("q2 ==" in text)
+        progs.append({"nodes": [n for n, _ in world], "text": text, "f55": f55,
+                      "tag": "%s conditional program (%d #if)" % (tag, G.count_ifs(items))})
+        if not f55 and any(n[0] in ("L", "C") and n[1] > 0 and path for n, path in world):
+            chk.nontriv(("cd", text))
+    views = run_programs(chk, fnd, bins, model, names, "cond", progs, ["C15_lookup", "C15_declare_errors", "C15_forward"])
+    # metamorphic: the selected world alone assembles to the same bits and symbol values
+    wlines = ["A\t%d\t1\t1\t%s" % (BUDGET, vlib.hx(G.render(p["nodes"]))) for p in progs]
+    wres = vlib.run_lines([bins["debug"] + "/asmtext"], wlines)
+    for idx, p in enumerate(progs):
+        if views[idx] is None or views[idx][0] == "CRASH":
+            continue
+        wv = impl_program(wres[idx])
+        if wv != views[idx] and not p["f55"]:
+            fnd.add("cond-metamorphic", "a program and its selected world (taken arms inlined) assemble differently",
+                    {"kind": "program", "stream": "cond", "program": p["text"], "selected_world": G.render(p["nodes"]), "budget": BUDGET,
+                     "impl": show_view(views[idx]), "spec": "as the selected world: " + show_view(wv)})
+    chk.count("cond", 0, **dist)
+    for i in (0, len(progs) - 1):
+        if views[i]:
+            chk.sample({"stream": "cond", "program": progs[i]["text"], "selected_world": G.render(progs[i]["nodes"]), "impl": show_view(views[i])})
+
+
 def directed(chk, fnd, bins, model, names):
     """hand-picked families: the witnesses of the reading notes and of F54, forward/backward twins"""
     L, C, O = (lambda k, n: ("L", k, n)), (lambda k, n, e: ("C", k, n, e)), ("O",)
@@ -552,6 +636,7 @@ def run(chk):
     stream_rounds(chk, fnd, bins, model, names, cases)
     stream_chain(chk, fnd, bins, model, names, cases)
     stream_order(chk, fnd, bins, model, names, 800 if quick else 6000)
+    stream_cond(chk, fnd, bins, model, names, 3000 if quick else 25000)
     fnd.flush()
 
 
@@ -575,4 +660,6 @@ def replay(chk, rep):
             out.append("B: " + show_view(impl_program(o2[0])))
     print("program:\n%s\nimplementation now: %s\nrecorded impl: %s\nexpected (spec): %s" % (
         prog, "\n".join(out), r.get("impl"), r.get("spec", r.get("expected_final"))))
+    if r.get("selected_world"):
+        print("selected world (taken arms inlined), on which the specification was evaluated:\n%s" % r["selected_world"])
     return 0
